@@ -73,8 +73,12 @@ def run_unit(args):
         u = [x for x in units if x.name == uname][0]
         for (m, q) in u.targets:
             try:
-                f = U.rewrite.get_function(U.load_repo_module(m), q.split(".<locals>")[0])
-                d = core.source_digest(f)
+                if m.endswith(".c"):
+                    from pyvc import cfront
+                    d = cfront.source_digest(os.path.join("/repo", m), q)
+                else:
+                    f = U.rewrite.get_function(U.load_repo_module(m), q.split(".<locals>")[0])
+                    d = core.source_digest(f)
             except Exception as e:
                 d = {"error": "%s: %s" % (type(e).__name__, e)}
             d["function"] = "%s.%s" % (m, q)
